@@ -3,13 +3,13 @@ import OsloModel.Exc
 open Oslo Oslo.Exc Oslo.Proto
 
 /-
-Request:  run <flag 0|1> <path absent|file|dir> <excs> <body>
+Request:  run <flag 0|1> <path absent|file|dir|lfile|ldir|dangling|loop> <excs> <body>
   excs : comma list, one `needsArgs:isExc:priorLen:cause:suppress` per declared exception id 0..n-1
          (class id = index; the initial traceback is `priorLen` frames O<priorLen-1>..O0; cause is N or
          a declared id; suppress 0|1 is `__suppress_context__`)
   body : prefix notation, tokens separated by one blank:
          nop | rc k | rn k | sr 0|1 | nest 0|1 B | fr 0|1 | cap | seq A B | h k B
-         | fx form acc rais yes/no B | fc form acc rais yes/no k | rp d|n|r<k> B | rwc N|none|<k>
+         | fx form acc rais yes/no B | fc form acc rais yes/no k | rp d|n|w|r<k> B | rwc N|none|<k>
            yes/no: the objects the predicate returns for accepted / other ids: T F N o m i<int> s<len>
                  l<len> t<len> b0 b1 (object whose __bool__ is False / True)
            form: 0 function, 1 instance method, 2/3 classmethod via class/instance,
@@ -61,6 +61,7 @@ def parseRemove (s : String) : Option RemoveFn :=
   match s.toList with
   | ['d'] => some .default
   | ['n'] => some .noop
+  | ['w'] => some .wrapped
   | 'r' :: rest => (String.ofList rest).toNat?.map .raises
   | _ => none
 
@@ -137,7 +138,10 @@ def parseExc (s : String) : Option ExcSpec :=
   | _ => none
 
 def parsePath : String → Option PathKind
-  | "absent" => some .absent | "file" => some .file | "dir" => some .dir | _ => none
+  | "absent" => some .absent | "file" => some .file | "dir" => some .dir
+  | "lfile" => some (.link .file) | "ldir" => some (.link .dir)
+  | "dangling" => some (.link .missing) | "loop" => some (.link .loop)
+  | _ => none
 
 def priorTb (n : Nat) : Tb := (List.range n).reverse.map .prior
 
@@ -161,6 +165,7 @@ def showOptWho (n : Nat) (h : Heap) : Option ExcId → String
 
 def showPath : PathKind → String
   | .absent => "absent" | .file => "file" | .dir => "dir"
+  | .link .file => "lfile" | .link .dir => "ldir" | .link .missing => "dangling" | .link .loop => "loop"
 
 def showRes (n : Nat) (r : Res) : String :=
   let h := r.st.heap
